@@ -23,6 +23,8 @@ def plan(prop, tier, seed):
 
 def gen_case(rnd):
     k = rnd.random()
+    if k < 0.012:
+        return "deep", triggers.deep(rnd)
     if k < 0.05:
         # one problem many times over: more instances than any small constant a pass might count to
         return "repeated", triggers.repeated(rnd)
@@ -116,7 +118,7 @@ def build(text, lang):
     from mwlib.parser import advtree
     from mwlib.parser.refine.uparser import parse_string
     from ..gen.db import SynthDB
-    tree = parse_string("T", text, SynthDB({"t": "tee {{{1|}}}", "box": "<div class=\"noprint\">b</div>"}, lang), lang=lang)
+    tree = parse_string("T", text, SynthDB({"t": "tee {{{1|}}}", "box": "<div class=\"noprint\">b</div>", "twice": "{{{1}}} and {{{1}}}"}, lang), lang=lang)
     advtree.build_advanced_tree(tree)
     return tree
 
@@ -139,9 +141,14 @@ def run_case(prop, R, text, lang, kind):
     if v:
         found.append(("C05", "tree:%s:after-build_advanced_tree" % v[0], v[1], None))
         return found, tree
-    tc = TreeCleaner(tree, save_reports=True)
+    # the writers construct the cleaner with rtl=True for right-to-left wikis: both configurations are exercised
+    rtl = (len(text) + len(lang)) % 3 == 0
+    if rtl:
+        R.count("cases_with_rtl_cleaner")
+    tc = TreeCleaner(tree, save_reports=True, rtl=rtl)
     tc.skip_methods = []
     broken = False
+    deep_recursion = tree_stats(tree)[1] > 60
     for name in TreeCleaner.cleaner_methods:
         n, d = tree_stats(tree)
         before = snapshot(tree)
@@ -155,10 +162,13 @@ def run_case(prop, R, text, lang, kind):
             return found, tree      # the tree is in an arbitrary state now
         except RecursionError as e:
             if d > 60:
-                R.count("recursion_on_deep_tree_(outside_quantifier)")
-                return found, tree
-            found.append(("C06", "pass-raises:%s:%s" % (name, exc_key(e)), "pass %s raised RecursionError on a tree of depth %d" % (name, d), exc_detail(e)))
-            raised = True
+                # C06 does not cover such depths; C05 still does: the tree the pass leaves behind must be a tree
+                R.count("recursion_on_deep_tree_(outside_C06_quantifier)")
+                raised = True
+                deep_recursion = True
+            else:
+                found.append(("C06", "pass-raises:%s:%s" % (name, exc_key(e)), "pass %s raised RecursionError on a tree of depth %d" % (name, d), exc_detail(e)))
+                raised = True
         except Exception as e:
             found.append(("C06", "pass-raises:%s:%s" % (name, exc_key(e)), "pass %s raised %s: %s" % (
                 name, type(e).__name__, str(e)[:100]), exc_detail(e)))
@@ -187,19 +197,29 @@ def run_case(prop, R, text, lang, kind):
                 # reported once per input; the remaining passes still run (C06 is about them completing)
                 found.append(("C05", "tree:%s:after-%s%s" % (v[0], name, ":pass-raised" if raised else ""), "after pass %s: %s" % (name, v[1]), None))
                 broken = True
-    c = None if broken else contract(tree)
+                if deep_recursion:
+                    return found, tree      # passes on a broken, very deep tree need not terminate (outside C06)
+    try:
+        c = None if broken else contract(tree)
+    except RecursionError:
+        c = None
     R.count("contract_checks")
     if c:
         found.append(("C05", "contract:%s" % c[0], "after the full cleaning sequence: %s" % c[1], None))
     # the deployed driver, on a fresh tree of the same input
     try:
         tree2 = build(text, lang)
-        tc2 = TreeCleaner(tree2, save_reports=True)
+        tc2 = TreeCleaner(tree2, save_reports=True, rtl=rtl)
         tc2.clean_all()
         errs = [r for r in tc2.get_reports() if r[1].startswith("'ERROR:'")]
         R.count("clean_all_runs")
         for caller, msg in errs[:3]:
+            if deep_recursion and "RecursionError" in msg:
+                continue
             found.append(("C06", "clean_all-error-report", "clean_all recorded %s" % msg[:160], None))
+    except RecursionError as e:
+        if not deep_recursion:
+            found.append(("C06", "clean_all-raises:" + exc_key(e), "clean_all raised RecursionError", exc_detail(e)))
     except Exception as e:
         found.append(("C06", "clean_all-raises:" + exc_key(e), "clean_all raised %s" % type(e).__name__, exc_detail(e)))
     return found, tree
@@ -214,7 +234,7 @@ def run_shard(prop, desc, R):
     for _ in range(desc["count"]):
         lang = rnd.choice(W.LANGS)
         kind, text = gen_case(rnd)
-        if W.depth_estimate(text) > 40:
+        if kind != "deep" and W.depth_estimate(text) > 40:
             R.skip()
             continue
         report(prop, R, text, lang, kind)
@@ -237,16 +257,18 @@ def report(prop, R, text, lang, kind):
         if p != prop:
             R.count("findings_belonging_to_" + p)
             continue
-        small = text
-        if R.viol_per_key.get(key, 0) < 1 and len(text) < 6000:
+        first = R.viol_per_key.get(key, 0) < 1
+        vcase = {"text": text, "lang": lang, "kind": kind}
+        # recorded before any minimisation: a shrunk variant may hang the pass under test
+        R.violation(key, what, vcase, detail)
+        if first and len(text) < 6000 and kind != "deep":
             from ..gen.shrink import shrink
 
             def fails(t):
                 with contextlib.redirect_stdout(io.StringIO()), contextlib.redirect_stderr(io.StringIO()):
                     f2, _ = run_case(prop, _NullR(), t, lang, kind)
                 return any(k == key for (_, k, _, _) in f2)
-            small = shrink(text, fails, max_calls=120)
-        R.violation(key, what, {"text": small, "lang": lang, "kind": kind}, detail)
+            vcase["text"] = shrink(text, fails, max_calls=120)
 
 
 class _NullR:
